@@ -86,13 +86,9 @@ def _equal(a, b):
     if isinstance(a, tuple) and isinstance(b, tuple):
         if len(a) != len(b):
             return False
-        if len(a) == 2 and np.ndim(a[0]) == 0 and not isinstance(
-                a[0], str) and isinstance(a[1], np.ndarray):
-            # (score, gradient): gradient only compared for finite scores
-            if not _equal(a[0], b[0]):
-                return False
-            if not np.isfinite(a[0]):
-                return True
+        # ((score, gradient) pairs are compared entry by entry also where
+        # the score is -inf: what a rejected point returns is a result like
+        # any other, gradient-based samplers read it)
         return all(_equal(x, y) for x, y in zip(a, b))
     if isinstance(a, np.ndarray) or isinstance(b, np.ndarray):
         a, b = np.asarray(a), np.asarray(b)
@@ -195,7 +191,12 @@ class World(object):
         h, xv, _ = GP.hierarchy_vector(rng, leaves, n_ids)
         # bottom entries near the individual point
         hpts = [_ro(xv), _ro(xv * np.exp(0.02 * rng.normal(size=len(xv))))]
-        self._add('hier', hl, hpts, s1=True)
+        # a rejected point (negative population parameters: scales outside
+        # the support) is answered the same way every time, too
+        xr = np.array(xv)
+        xr[h.n_bottom:] = -np.abs(xr[h.n_bottom:])
+        hpts_r = hpts + [_ro(xr)]
+        self._add('hier', hl, hpts_r, s1=True)
         prior = pints.ComposedLogPrior(*[
             pints.GaussianLogPrior(0.4, 2.0) for _ in range(h.n_top)])
         self._add('hier_post', chi.HierarchicalLogPosterior(hl, prior), hpts,
@@ -234,6 +235,8 @@ class World(object):
                 pmod.fix_parameters({nm[jf]: float(tp[jf])})
                 tp = np.delete(tp, jf)
             tps = [_ro(tp), _ro(tp * 1.07), _ro(tp * 0.9)]
+            # (a rejected point for the scoring calls)
+            tps_r = tps + [_ro(-np.abs(tp))]
             eta = _ro(rng.uniform(0.2, 0.9, size=(n2, pmod.n_dim())))
             sd = [0, int(rng.integers(1, 1000))][int(rng.integers(2))]
             nme = 'popmodel%d' % j
@@ -245,10 +248,10 @@ class World(object):
                  m.sample(a, n_samples=3, seed=sd), tps))
             self.entries.append(
                 (nme, 'll', lambda a, m=pmod, e=eta:
-                 m.compute_log_likelihood(a, e), tps))
+                 m.compute_log_likelihood(a, e), tps_r))
             self.entries.append(
                 (nme, 'S1', lambda a, m=pmod, e=eta:
-                 m.compute_sensitivities(a, e, reduce=True), tps))
+                 m.compute_sensitivities(a, e, reduce=True), tps_r))
         # ---- population model on its own (shared with hl!)
         top = _ro(xv[h.n_bottom:])
         seed = [0, int(rng.integers(1, 1000))][int(rng.integers(2))]
